@@ -16,14 +16,17 @@ from vivarium.library.topology import (
     dict_to_paths, paths_to_dict)
 
 LAWS = ['LawWalkIsNormalize', 'LawNormalizeIdempotent', 'LawPathTo',
-        'LawPathFor', 'LawGetAssoc', 'LawDelete', 'LawLeafRoundTrip']
+        'LawPathFor', 'LawMoveKeepsTheAlgebra', 'LawGetAssoc', 'LawDelete', 'LawLeafRoundTrip']
 
 
 def build_tree(paths):
     root = Store({})
+    paths = [list(p) for p in paths]
     for p in sorted(paths, key=len):
         if p:
-            root._establish_path(tuple(p), {})
+            # the nodes without children are declared variables
+            inner = any(q[:len(p)] == p and len(q) > len(p) for q in paths)
+            root._establish_path(tuple(p), {} if inner else {'_default': 1})
     return root
 
 
@@ -85,6 +88,37 @@ def check_tree(rep, entry):
         if list(nb.path_for()) != b or root.get_path(nb.path_for()) is not nb \
                 or nb.top() is not root:
             bad.append(('path_for/top', b))
+    # LawMoveKeepsTheAlgebra: move one top-level subtree under another (every
+    # path_for has been asked above, before the move)
+    tops = sorted(k for k in root.inner)
+    if len(tops) >= 2 and not bad:
+        src, dst = tops[0], tops[1]
+        node = root.inner[src]
+        root.inner[dst].add_node(('z',), node)
+        del root.inner[src]
+
+        def moved(p):
+            p = list(p)
+            return [dst, 'z'] + p[1:] if p[:1] == [src] else p
+        nodes = {tuple(moved(p)): None for p in tree}
+        for mp in nodes:
+            rep.evaluations += 1
+            try:
+                n = root.get_path(mp)
+                nodes[mp] = n
+                if list(n.path_for()) != list(mp) or n.top() is not root:
+                    bad.append(('path_for after a move', [src, dst], list(mp), list(n.path_for())))
+            except Exception as e:
+                bad.append(('get_path after a move', [src, dst], list(mp), repr(e)))
+        for a, na in nodes.items():
+            for b2, nb in nodes.items():
+                if na is None or nb is None:
+                    continue
+                try:
+                    if na.get_path(tuple(na.path_to(nb))) is not nb:
+                        bad.append(('path_to after a move', [src, dst], list(a), list(b2)))
+                except Exception as e:
+                    bad.append(('path_to after a move', [src, dst], list(a), list(b2), repr(e)))
     for b in bad[:3]:
         rep.violation({'kind': 'case', 'op': b[0], 'tree': sorted(map(tuple, tree)),
                        'detail': json.dumps(b[1:])},
